@@ -1630,6 +1630,11 @@ class WassersteinDistanceNewton(VariationalWassersteinDistance):
                 flux = solution_i[self.flux_slice]
                 new_distance = self.l1_dissipation(flux)
 
+                # A non-finite iterate (e.g. break down of an iterative linear solver)
+                # is treated as a failed iteration.
+                if not np.isfinite(new_distance):
+                    raise ValueError("Non-finite distance encountered.")
+
                 # Update increment
                 increment = solution_i - old_solution_i
 
@@ -1976,14 +1981,9 @@ class WassersteinDistanceBregman(VariationalWassersteinDistance):
                 # Update distance
                 new_distance = self.l1_dissipation(flux)
 
-                # Catch nan values
-                if np.isnan(new_distance):
-                    info = {
-                        "converged": False,
-                        "number_iterations": iter,
-                        "convergence_history": convergence_history,
-                    }
-                    return new_distance, solution_i, info
+                # Catch nan values - treated as a failed iteration
+                if not np.isfinite(new_distance):
+                    raise ValueError("Non-finite distance encountered.")
 
                 # Determine the error in the mass conservation equation
                 mass_conservation_residual = (
